@@ -108,9 +108,10 @@ fn tracker_visit_callarg<'a>(callarg: &ast::CallArg<'a>, state: &mut AssignmentT
 
 fn tracker_visit_call<'a>(call: &ast::Call<'a>, state: &mut AssignmentTracker<'a>) {
     match call.identify_call() {
-        // `self.block_name()` renders a block, it does not look up `self`.
+        // `self.block_name()` renders a block and `super()` the parent block,
+        // neither looks up `self` or `super`.
         #[cfg(feature = "multi_template")]
-        ast::CallType::Block(_) => {}
+        ast::CallType::Block(_) | ast::CallType::Function("super") => {}
         _ => tracker_visit_expr(&call.expr, state),
     }
     call.args
@@ -288,10 +289,13 @@ fn track_walk<'a>(node: &ast::Stmt<'a>, state: &mut AssignmentTracker<'a>) {
         }
         #[cfg(feature = "multi_template")]
         ast::Stmt::Block(stmt) => {
-            state.push();
-            state.assign("super");
+            // a block is not only rendered in place: `self.name()` renders it
+            // from anywhere in the template (also from a macro or before the
+            // assignments in front of it) and `render_block` renders it on
+            // its own, so it cannot rely on what is assigned around it.
+            let outer = std::mem::replace(&mut state.assigned, vec![Default::default()]);
             stmt.body.iter().for_each(|x| track_walk(x, state));
-            state.pop();
+            state.assigned = outer;
         }
         #[cfg(feature = "multi_template")]
         ast::Stmt::Extends(_) | ast::Stmt::Include(_) => {}
@@ -367,5 +371,20 @@ mod tests {
     #[cfg(feature = "multi_template")]
     fn test_self_block_call_is_not_a_lookup() {
         assert!(undeclared("{% block x %}{% endblock %}{{ self.x() }}").is_empty());
+        assert!(undeclared("{% block x %}{{ super() }}{% endblock %}").is_empty());
+        assert_eq!(undeclared("{% block x %}{{ super }}{% endblock %}"), ["super"]);
+    }
+
+    #[test]
+    #[cfg(feature = "multi_template")]
+    fn test_blocks_do_not_rely_on_surrounding_assignments() {
+        assert_eq!(
+            undeclared("{{ self.b() }}{% set x = 1 %}{% block b %}{{ x }}{{ y }}{% endblock %}"),
+            ["x", "y"]
+        );
+        assert_eq!(
+            undeclared("{% for i in [1] %}{% block b %}{{ i }}{% endblock %}{% endfor %}{{ i }}"),
+            ["i"]
+        );
     }
 }
